@@ -65,6 +65,7 @@ Mutations caught (private copy, README rule 6; each produced new VIOLATION signa
 """
 from __future__ import annotations
 
+import functools
 import gc
 import logging
 import sqlite3
@@ -115,6 +116,8 @@ SIG_DISPOSE = ("Q1: QueuePool.dispose() while connections are checked out resets
                "after every holder released, checkedout() is negative")
 SIG_EXIT = ("BaseException (KeyboardInterrupt) out of a driver call the pool makes while releasing / discarding a "
             "connection skips the check-in: the pool slot is lost (checkedout() stays > 0, later checkouts time out)")
+SIG_CHAR = ("an error raised by the isolation-level reset callback (finalize_callback) during check-in escapes and the "
+            "record is never returned to the pool: the slot is lost")
 SIG_DETACHED = ("Q2: a detached connection whose reset-on-return fails is dropped without close() ever being attempted")
 logging.getLogger("sqlalchemy").addHandler(logging.NullHandler())
 
@@ -147,14 +150,16 @@ class M:
     spoiled: dispose() ran while connections were checked out (known finding SIG_DISPOSE: counters are off afterwards)
     external: detached connections the application dropped without close() -- no longer the pool's business
     soft: cids that must not be handed out again once released (soft invalidation, pool invalidation, recycle)
-    epoch: number of ticks; born[cid] = epoch at creation"""
+    epoch: number of ticks; born[cid] = epoch at creation
+    iso: holders that registered an isolation-level characteristic (reset callback runs at check-in)
+    charerr: a driver error hit such a reset callback (known finding SIG_CHAR)"""
 
-    __slots__ = ("holders", "hard", "soft", "epoch", "nfaults", "spoiled", "external", "exited")
+    __slots__ = ("holders", "hard", "soft", "epoch", "nfaults", "spoiled", "external", "exited", "iso", "charerr")
 
     def __init__(self, holders, hard=frozenset(), soft=frozenset(), epoch=0, nfaults=0, spoiled=False, external=frozenset(),
-                 exited=False):
-        (self.holders, self.hard, self.soft, self.epoch, self.nfaults, self.spoiled, self.external, self.exited) = (
-            holders, hard, soft, epoch, nfaults, spoiled, external, exited)
+                 exited=False, iso=frozenset(), charerr=False):
+        (self.holders, self.hard, self.soft, self.epoch, self.nfaults, self.spoiled, self.external, self.exited, self.iso,
+         self.charerr) = (holders, hard, soft, epoch, nfaults, spoiled, external, exited, iso, charerr)
 
     def replace(self, **kw):
         d = {k: getattr(self, k) for k in self.__slots__}
@@ -172,6 +177,8 @@ def base_ops(m, cfg):
             ops.append(("ci", i))
             if h == "held":
                 ops += [("inv", i, "hard"), ("inv", i, "soft"), ("detach", i)]
+                if i not in m.iso:
+                    ops.append(("iso", i))
             ops.append(("drop", i))
     # StaticPool / SingletonThreadPool.dispose() close their connection even while it is checked out (by design; the
     # docs call their reconnect support partial), so dispose is only explored with nothing checked out there
@@ -189,7 +196,7 @@ def op_name(op):
     if op[0] == "inv":
         return "invalidate%d(%s)" % (op[1], op[2])
     if len(op) == 2:
-        return "%s%d" % ({"ci": "close", "detach": "detach", "drop": "del+gc"}[op[0]], op[1])
+        return "%s%d" % ({"ci": "close", "detach": "detach", "drop": "del+gc", "iso": "isolation_level_option"}[op[0]], op[1])
     return op[0]
 
 
@@ -203,6 +210,7 @@ class Env:
         self._cm.__enter__()
         self.fake = faults.FakeDBAPI(faults.Ledger())
         self.dialect = self.fake.dialect()
+        self.dialect.default_isolation_level = "SERIALIZABLE"  # what Dialect.initialize() records on first connect
         self.n = 0
 
     def dispose(self):
@@ -279,6 +287,13 @@ class World:
                 self.holders[op[1]].invalidate(soft=(op[2] == "soft"))
             elif k == "detach":
                 self.holders[op[1]].detach()
+            elif k == "iso":
+                # what Connection.execution_options(isolation_level="AUTOCOMMIT") does to the pooled connection:
+                # pysqlite's set_isolation_level + DefaultDialect._set_connection_characteristics' reset registration
+                f = self.holders[op[1]]
+                f.dbapi_connection.isolation_level = None
+                f._connection_record.finalize_callback.append(
+                    functools.partial(self.env.dialect._reset_characteristics, {"isolation_level": "AUTOCOMMIT"}))
             elif k == "drop":
                 self.holders[op[1]] = None  # refcount zero -> the pool's weakref callback runs here, deterministically
             elif k == "dispose":
@@ -357,7 +372,15 @@ def make_step(rec, env, cfg):
         exit_now = any(c.fault == "exit" for c in sl)
         exited = ms.exited or exit_now
 
+        charerr = ms.charerr or (op[0] in ("ci", "drop") and op[1] in ms.iso and (
+            outcome != "ok" or any(c.kind in ("cursor", "execute", "cursor_close") for c in errs)))
+
         def bad(k, what):
+            if charerr and not exited and k.split("-")[0] in ("Q1", "Q2", "Q3", "I3", "I1", "I4"):
+                rec.violation(SIG_CHAR, "cfg %s history %s: %s: %s\nledger of the last op: %s" % (
+                    list(cfg), names, k, what, [repr(c) for c in sl][:30]), case, kind="char-reset-slot-loss")
+                rec.count("char_reset_findings")
+                return Res(None, sl)
             if exited and k.split("-")[0] in ("Q1", "Q3", "I3", "I1"):
                 rec.violation(SIG_EXIT, "cfg %s history %s: %s: %s\nledger of the last op: %s" % (
                     list(cfg), names, k, what, [repr(c) for c in sl][:30]), case, kind="exit-slot-loss")
@@ -381,6 +404,11 @@ def make_step(rec, env, cfg):
                 return bad("discarded-connection-used", "driver call %s on a connection the pool had discarded" % c.kind)
 
         # ---- bookkeeping: which connections are retired by this operation
+        iso = set(ms.iso)
+        if op[0] == "iso" and outcome == "ok":
+            iso.add(op[1])
+        elif op[0] in ("ci", "drop", "detach") or (op[0] == "inv" and op[2] == "hard"):
+            iso.discard(op[1])
         hard, soft, external = set(ms.hard), set(ms.soft), set(ms.external)
         spoiled = ms.spoiled
         holders = list(ms.holders)
@@ -422,6 +450,9 @@ def make_step(rec, env, cfg):
                     return bad("I1-closed-connection-handed-out", "checkout returned a connection whose close() was called")
                 if pp and ci.dead:
                     return bad("I1-dead-connection-handed-out", "pre_ping is on but checkout returned a dead connection")
+                if ci.obj.isolation_level != "":
+                    return bad("I4-isolation-left", "checkout returned a connection whose isolation_level attribute is %r"
+                               % (ci.obj.isolation_level,))
             else:
                 holders[i] = None
                 w.holders[i] = None
@@ -467,7 +498,7 @@ def make_step(rec, env, cfg):
             if c.kind == "close":
                 hard.add(c.cid)
         m2 = M(tuple(holders), frozenset(hard), frozenset(soft), w.epoch, ms.nfaults + (1 if fired else 0), spoiled,
-               frozenset(external), exited)
+               frozenset(external), exited, frozenset(iso), charerr)
         key = canon(w, m2)
         rec.outcome((op[0], op[-1] if op[0] in ("co", "inv") else None, outcome, type(err).__name__ if err else None, evs,
                      key[2:]))
@@ -497,7 +528,7 @@ def make_step(rec, env, cfg):
         for p in w.pools:
             if isinstance(p, sa_pool.QueuePool):
                 okc = p.checkedout() == 0 and p.overflow() == p.checkedin() - p.size()
-                if not okc and m2.spoiled and not m2.exited:
+                if not okc and m2.spoiled and not m2.exited and not m2.charerr:
                     rec.violation(SIG_DISPOSE, "cfg %s history %s: all holders released but checkedout()=%d checkedin()=%d "
                                   "overflow()=%d" % (list(cfg), names, p.checkedout(), p.checkedin(), p.overflow()),
                                   case, kind="dispose-counters")
@@ -531,6 +562,9 @@ def make_step(rec, env, cfg):
                     return bad("I1-stale-connection-handed-out", "after recovery, checkout returned a stale connection")
                 if pp and ci.dead:
                     return bad("I1-dead-connection-handed-out", "after recovery, pre_ping checkout returned a dead connection")
+                if ci.obj.isolation_level != "":
+                    return bad("I4-isolation-left", "after recovery, checkout returned a connection whose isolation_level "
+                               "attribute is %r" % (ci.obj.isolation_level,))
                 for c in led.log[start:]:
                     if m2.exited:
                         break
@@ -579,7 +613,8 @@ def canon(w, m2):
         counters = (p.checkedin(), p.checkedout(), p.overflow())
     # relative order of the pool's invalidation stamp and the youngest idle connection decides future recycling
     inval = getattr(p, "_invalidate_time", 0) > 0
-    return (w.cfg, len(w.pools) > 1, m2.holders, conns, counters, inval, m2.nfaults, m2.spoiled, m2.exited)
+    return (w.cfg, len(w.pools) > 1, m2.holders, conns, counters, inval, m2.nfaults, m2.spoiled, m2.exited,
+            tuple(sorted(m2.iso)), m2.charerr)
 
 
 def fault_allowed(call, kind):
